@@ -592,6 +592,11 @@ impl Memfs {
         let link = self._abs(guard, link)?;
         let target = target.as_ref().to_owned();
 
+        // Never silently keep an existing entry as the new link would point somewhere else
+        if guard.contains_entry(&link) {
+            return Err(PathError::exists_already(link).into());
+        }
+
         // Convert relative links to absolute to ensure they are clean
         let target = self._abs(guard, if !target.is_absolute() { link.dir()?.mash(target) } else { target })?;
 
